@@ -421,6 +421,57 @@ def check(ctx):
     if n4 < 3:
         raise AnalysisError('C02.R4 found only %d XER classes whose encoder appends children' % n4)
 
+    # ---- R8: XER element names are XML names.  Member names are identifiers, but an unnamed SEQUENCE OF / SET OF element is named after its *type*, and type names have
+    #      spaces (OCTET STRING, BIT STRING, SEQUENCE OF): every name that derives from a `['type']` entry passes through the space sanitiser -- centrally in the
+    #      constructor of the XER types, or at each place that derives a name.
+    ctx.rule('C02.R8', 'XER element names derived from type names are sanitised (no white-space in a tag): centrally in Type.__init__ or at every derivation')
+    xm = model.mod(XER)
+
+    def sanitises(e):
+        return isinstance(e, ast.Call) and isinstance(e.func, ast.Attribute) and e.func.attr in ('replace', 'translate') and e.args and isinstance(e.args[0], ast.Constant) \
+            and isinstance(e.args[0].value, str) and ' ' in e.args[0].value
+    central = False
+    xt = xm.classes.get('Type')
+    if xt is not None:
+        for k_ in xt.mro():
+            if k_.mod is not xm:
+                continue
+            ini = k_.methods.get('__init__')
+            if ini is not None:
+                np_ = [p_ for p_ in flow.param_names(ini) if p_ != 'self'][:1]
+                central = central or any(sanitises(x_) and isinstance(x_.func.value, ast.Name) and x_.func.value.id in np_ for x_ in walk_no_nested(ini))
+    n8 = 0
+    xc = xm.classes.get('Compiler')
+    for g_ in (xc.methods.values() if xc else []):
+        for c_ in walk_no_nested(g_):
+            if not (isinstance(c_, ast.Call) and isinstance(c_.func, ast.Attribute) and c_.func.attr == 'compile_type' and c_.args):
+                continue
+            srcs = [c_.args[0]]
+            if isinstance(c_.args[0], ast.Name):
+                srcs += [a_.value for a_ in walk_no_nested(g_) if isinstance(a_, ast.Assign) and any(isinstance(t_, ast.Name) and t_.id == c_.args[0].id for t_ in a_.targets)]
+            raw = []
+            for e_ in srcs:
+                clean_ids = set()
+                for x_ in ast.walk(e_):
+                    if sanitises(x_):
+                        clean_ids |= {id(y_) for y_ in ast.walk(x_.func.value)}
+                for x_ in ast.walk(e_):
+                    if isinstance(x_, ast.Subscript) and isinstance(x_.slice, ast.Constant) and x_.slice.value == 'type' and id(x_) not in clean_ids:
+                        raw.append(x_)
+            if not any(isinstance(x_, ast.Subscript) and isinstance(x_.slice, ast.Constant) and x_.slice.value == 'type' for e_ in srcs for x_ in ast.walk(e_)):
+                continue
+            n8 += 1
+            ok = central or not raw
+            ctx.instance('C02.R8', '%s names a child after %s' % (Model.qual(g_), ast.unparse(c_.args[0])[:60]), ('sanitised in Type.__init__' if central else 'sanitised here') if ok else 'VIOLATION',
+                         node=c_, file=XER)
+            if not ok:
+                ctx.violation('C02.R8', XER, raw[0], Model.qual(g_),
+                              'the element is named after `%s`, a type name, without replacing the spaces (and the constructor of the XER types does not do it either): an unnamed '
+                              'SET OF / SEQUENCE OF OCTET STRING is written as <OCTET STRING>, which is not well-formed XML and cannot be decoded' % ast.unparse(raw[0])[:60],
+                              stmt='type name used as element name')
+    if n8 < 2:
+        raise AnalysisError('C02.R8 found only %d children named after their type' % n8)
+
     # ---- R6: a container that skips the per-element conversion for "transparent" element types (a shortcut keyed on isinstance) may do so
     #      only if the conversion of every class that test accepts -- subclasses included -- is the identity
     ctx.rule('C02.R6', 'a pass-through shortcut keyed on isinstance(<element type>, K) covers only classes whose encode/decode are identities (subclasses included)')
